@@ -220,6 +220,18 @@ func genC03(g *genCtx) {
 		d := pool[r.intn(len(pool))]
 		g.add(&Case{Kind: "sel", Doc: d, Ctx: pickNodeCtx(r, d), Expr: genPositional(r)})
 	}
+	// position() and last() written after other location steps of the same predicate (they refer to the step being
+	// filtered, whatever was built before them), compared with numbers that are themselves computed
+	for i := 0; i < g.scale(4000, 40000); i++ {
+		d := pool[r.intn(len(pool))]
+		st := r.pick([]string{"a", "b", "*", "node()"})
+		bp := r.pick([]string{"@k", "a", "b", "*", "text()", "@k = '1'", "not(a)", "count(*) > 0", ". = '1'"})
+		pos := r.pick([]string{"position() = " + r.pick([]string{"1", "2", "3"}), "position() < 3", "position() > 1", "position() = last()", "last() = 2", "position() != last()", "position() = last() - 1"})
+		pr := r.pick([]string{bp + " and " + pos, bp + " or " + pos, pos + " and " + bp, "count(" + r.pick([]string{"*", "a", "@*"}) + ") = position()", "position() = count(" + r.pick([]string{"*", "a", "@*"}) + ")",
+			". = position()", "@k = last()", "count(*) = last() - 1", "not(" + bp + ") and " + pos, "string-length(.) = position()", "(" + bp + ") and (" + pos + ")", r.pick([]string{"a", "b"}) + "[" + pos + "] and " + pos})
+		head := r.pick([]string{"", "/*/", "//", "*/", "//a/"})
+		g.add(&Case{Kind: "sel", Doc: d, Ctx: pickNodeCtx(r, d), Expr: head + st + "[" + pr + "]"})
+	}
 	// the proximity position must not depend on what the same compiled expression saw before: positional
 	// expressions evaluated in turn on two documents of the same shape with different numbers of candidates
 	genShapeHistories(g, g.scale(400, 4000), []string{"/r/l/i[last()]", "//i[position() = last()]", "l/i[last() - 1]", "//l/i[position() < last()]",
